@@ -468,6 +468,12 @@ def rule_structural_discharges(ctx):
             for a in m["arms"]:
                 if not (strip(a["body"]).get("ty") == "!" or a["body"].get("ty") == "!"):
                     handled |= {v for _, v in (x for q in hq.or_alternatives(a["pat"]) for x in __import__("rules.facts", fromlist=["pat_variants"]).pat_variants(q))}
+        takes_op = any("mini_gringo::BinaryOperator" in str(q_.get("ty", "")) for q_ in b.get("params", []))
+        has_panic = bool(hq.matches_over(b["body"], "syntax_tree::asp::mini_gringo::BinaryOperator"))
+        if not takes_op and not has_panic and bool(cs):
+            # the operator parameter got a type of its own that admits only the handled operations: no catch-all arm, nothing to discharge
+            ctx.ok("PANIC-CONSTARG", hq.last(fn) + ":binop", ctx.site(b), "the function no longer takes or matches an asp::BinaryOperator: its operator type admits only the handled operations, there is no catch-all arm to discharge", nontrivial=False)
+            continue
         ctx.add("PANIC-CONSTARG", hq.last(fn) + ":binop", bool(cs) and all(g in handled and g in allowed for g in got), ctx.site(b),
                 "all %d call sites pass a literal operator %s, handled set %s" % (len(cs), got, sorted(handled - {"*"})))
     # CONSTARG: z is never symbol-sorted: every fol::Variable literal in tau_star.rs has a literal General / Integer sort
